@@ -57,8 +57,8 @@ func genC12(tier string, seed int64) []core.Case {
 			N: map[string]int64{"clients": int64(4 + r.Intn(13)), "txns": int64(30 + r.Intn(31))}}
 		if i%3 == 1 {
 			c.N["procs"] = int64(1 + i%2)
-			c.N["clients"] = int64(12 + r.Intn(13))
-			c.N["txns"] = int64(15 + r.Intn(16))
+			c.N["clients"] = int64(8 + r.Intn(7))
+			c.N["txns"] = int64(12 + r.Intn(10))
 		}
 		if i == 0 {
 			c.N["sample"] = 1
